@@ -9,19 +9,40 @@ def showUnenc : Except Unenc.DErr (Nat × Bytes) → String
   | .error .length => "err:unencLength"
 
 /-- one step of `c03.session`: `e:<salt>:<sid>:<msg_id>:<seq_no>:<padding>:<body>` (sealed by the
-specification's server) or `u:<msg_id>:<body>`; the answer is that of `c03.route` / `c03.uroute` — the
-model of the receive path keeps nothing between two packets -/
-def sessionStep (key : Bytes) (t : String) : Option String :=
+specification's server), `u:<msg_id>:<body>`, or `c:<code>` (the 4-byte frame of a signed transport error
+code); the answer is that of `c03.route` / `c03.uroute` — the model of the receive path keeps nothing
+between two frames -/
+def sessionStep1 (key : Bytes) (t : String) : Option String :=
   match t.splitOn ":" with
   | "e" :: salt :: sid :: mid :: seq :: pad :: body =>
     match salt.toNat?, sid.toNat?, mid.toNat?, seq.toNat?, parseTok? pad, parseTok? (":".intercalate body) with
     | some salt, some sid, some mid, some seq, some pad, some body =>
       some (showRouted (route prims key (Spec.serverSeal prims key ⟨salt, sid, mid, seq, body⟩ pad)))
     | _, _, _, _, _, _ => none
+  | ["c", code] =>
+    match code.toInt? with
+    | some c =>
+      if c < -2147483648 ∨ 2147483647 < c then none
+      else some (showRouted (route prims key (leBytes (ofSigned 32 c) 4)))
+    | none => none
   | "u" :: mid :: body =>
     match mid.toNat?, parseTok? (":".intercalate body) with
     | some mid, some body => some (showRouted (route prims key (Unenc.serialize mid body)))
     | _, _ => none
+  | _ => none
+
+/-- how the peer cuts the frame into pieces: `each` or comma-separated offsets -/
+def cutsOk (c : String) : Bool :=
+  c == "each" || (c.splitOn ",").all fun t => match t.toNat? with
+    | some n => n < 2147483648
+    | none => false
+
+/-- `[<cuts>/]<step>`: the stream is the same bytes however the peer's writes cut it (the receive path
+reads exact counts: `Mtv.Framing.readFullSegs_eq_readN`), so the answer does not depend on the cuts -/
+def sessionStep (key : Bytes) (t : String) : Option String :=
+  match t.splitOn "/" with
+  | [step] => sessionStep1 key step
+  | [cuts, step] => if cutsOk cuts then sessionStep1 key step else none
   | _ => none
 
 /-- operations of property C03 (see harness/cmd/vh/c03.go for the Go side of each) -/
